@@ -336,7 +336,7 @@ def specOf (lin : List OpRec) : Spec := specRun [] (lin.map (·.op))
 
 structure SInv (sys : Sys) (σ : Spec) : Prop where
   walOff : sys.store.walOn = false
-  nd : ∀ (t : Nat) (th : Thread), sys.threads[t]? = some th → ∀ op ∈ th.ops, op.nonDurableBounded = true
+  nd : ∀ (t : Nat) (th : Thread), sys.threads[t]? = some th → ∀ op ∈ th.ops, op.nonDurableStr = true
   uniq : LiveUnique sys.store.vocab
   plain : ∀ k, k.cls ≠ .emb → (kview sys.store σ k).plainOK k
   embCache : ∀ k, k.cls = .emb → (kview sys.store σ k).ca = none
@@ -393,7 +393,7 @@ theorem SInv.vis {sys : Sys} {σ : Spec} (h : SInv sys σ) (k : Key) : (kview sy
   · exact KView.plain_vis (h.plain k he)
 
 theorem SInv.scan {sys : Sys} {σ : Spec} (h : SInv sys σ) (p : List Nat)
-    (hb : boundedPrefix p = true) (k : Key) :
+    (hb : validUtf8 p = true) (k : Key) :
     k ∈ scanNow sys.store p ↔ k ∈ (σ.map (·.1)).filter (pmatch p) := by
   have hv := h.vis k
   simp only [KView.vis, kview] at hv
@@ -409,7 +409,7 @@ theorem getElem?_set_self' {α} {l : List α} {t : Nat} {a old : α} (hold : l[t
 /-- thread `t` takes a step of an operation on key `k`: the step changes the view of `k` only -/
 theorem SInv.stepKey {sys sys' : Sys} {σ σ' : Spec} (h : SInv sys σ) {t : Nat} {th th' : Thread}
     {k : Key} (hth : sys.threads[t]? = some th) (hthreads : sys'.threads = sys.threads.set t th')
-    (hwal : sys'.store.walOn = false) (hnd : ∀ op ∈ th'.ops, op.nonDurableBounded = true)
+    (hwal : sys'.store.walOn = false) (hnd : ∀ op ∈ th'.ops, op.nonDurableStr = true)
     (hmid : th.midKey = none ∨ th.midKey = some k) (hmid' : th'.midKey = none ∨ th'.midKey = some k)
     (hothers : ∀ (j : Nat) (thj : Thread), sys.threads[j]? = some thj → j ≠ t → thj.midKey ≠ some k)
     (hframe : ∀ k', k' ≠ k → kview sys'.store σ' k' = kview sys.store σ k')
@@ -497,7 +497,7 @@ theorem SInv.stepKey {sys sys' : Sys} {σ σ' : Spec} (h : SInv sys σ) {t : Nat
 /-- thread `t` completes a one-step operation that changes neither the store nor the specification -/
 theorem SInv.stepStay {sys sys' : Sys} {σ : Spec} (h : SInv sys σ) {t : Nat} {th th' : Thread}
     (hth : sys.threads[t]? = some th) (hthreads : sys'.threads = sys.threads.set t th')
-    (hstore : sys'.store = sys.store) (hnd : ∀ op ∈ th'.ops, op.nonDurableBounded = true)
+    (hstore : sys'.store = sys.store) (hnd : ∀ op ∈ th'.ops, op.nonDurableStr = true)
     (hpc : th.pc = .start) (hpc' : th'.pc = .start) : SInv sys' σ := by
   have hself : sys'.threads[t]? = some th' := by rw [hthreads]; exact getElem?_set_self' hth
   have hother : ∀ j, j ≠ t → sys'.threads[j]? = sys.threads[j]? := by
@@ -1301,7 +1301,7 @@ theorem EInv.step_start {sys : Sys} {lin : List OpRec} {t : Nat} {th : Thread} {
     {rest : List Op} (hs : SInv sys (specOf lin)) (hh : HInv sys lin)
     (hth : sys.threads[t]? = some th) (hops : th.ops = op :: rest) (hpc : th.pc = .start)
     (hx : startsExclusive sys t = true) : EInv (stepOld sys t) := by
-  have hndop : op.nonDurableBounded = true := hs.nd t th hth op (by simp [hops])
+  have hndop : op.nonDurableStr = true := hs.nd t th hth op (by simp [hops])
   have hoth : ∀ k, op.key? = some k → ∀ (j : Nat) (thj : Thread), sys.threads[j]? = some thj →
       j ≠ t → thj.midKey ≠ some k := by
     intro k hk j thj hj _ hm
@@ -1310,16 +1310,16 @@ theorem EInv.step_start {sys : Sys} {lin : List OpRec} {t : Nat} {th : Thread} {
     fun k hk he => hs.quiet k he (startsExclusive_spec hx hth hpc hops hk he)
   have hold : th.pc.isPutMid = false := by rw [hpc]; rfl
   cases op with
-  | putD k v => simp [Op.nonDurableBounded, Op.nonDurable] at hndop
-  | delD k => simp [Op.nonDurableBounded, Op.nonDurable] at hndop
+  | putD k v => simp [Op.nonDurableStr, Op.nonDurable] at hndop
+  | delD k => simp [Op.nonDurableStr, Op.nonDurable] at hndop
   | scan p =>
     have hstep : stepOp sys.store (.scan p) th.pc = (sys.store, .done (.keys (scanNow sys.store p))) := by
       rw [hpc]; rfl
     rw [stepOld_done hth hops hstep]
     refine EInv.done_stay hs hh hth hops hpc ?_ rfl
     simp only [specRes, specStep, resEquiv]
-    have hbp : boundedPrefix p = true := by
-      simpa [Op.nonDurableBounded, Op.nonDurable, Op.scanBounded] using hndop
+    have hbp : validUtf8 p = true := by
+      simpa [Op.nonDurableStr, Op.nonDurable, Op.scanStr] using hndop
     exact ⟨fun k hk => (hs.scan p hbp k).mp hk, fun k hk => (hs.scan p hbp k).mpr hk⟩
   | exists_ k =>
     have hstep : stepOp sys.store (.exists_ k) th.pc = (sys.store, .done (.bool (existsNow sys.store k))) := by
@@ -1544,10 +1544,10 @@ theorem EInv.step {sys : Sys} (h : EInv sys) (t : Nat) (hx : startsExclusive sys
       · exact EInv.step_start hs hh hth hops hpc hx
       · exact EInv.step_inside hs hh hth hops hpc
 
-theorem EInv.init (progs : List ThreadProgram) (h : ∀ p ∈ progs, ∀ op ∈ p, op.nonDurableBounded = true) :
+theorem EInv.init (progs : List ThreadProgram) (h : ∀ p ∈ progs, ∀ op ∈ p, op.nonDurableStr = true) :
     EInv (initSys false progs) := by
   have hthreads : ∀ (t : Nat) (th : Thread), (initSys false progs).threads[t]? = some th →
-      th.pc = .start ∧ ∀ op ∈ th.ops, op.nonDurableBounded = true := by
+      th.pc = .start ∧ ∀ op ∈ th.ops, op.nonDurableStr = true := by
     intro t th hth
     simp only [initSys, List.getElem?_map, Option.map_eq_some_iff] at hth
     obtain ⟨p, hp, rfl⟩ := hth
